@@ -1,4 +1,5 @@
 import PytezosModel.Michelson.ValueCodec
+import PytezosModel.Michelson.CivilDate
 /-! The concrete `Env` used by the C11 / C04 drivers (correspondence only — the theorems quantify over every lawful
 `Env`).
 
@@ -6,8 +7,10 @@ import PytezosModel.Michelson.ValueCodec
   (the harness converts with the real library at the boundary; base58 is C09's business); the optimized bytes
   mirror `forge_contract` / `forge_address(tz_only)` / `forge_public_key` / `forge_base58` and the
   *length-dispatching* (repaired, C10) `unforge_*` at the structured level;
-* timestamps: proleptic-Gregorian civil date arithmetic for `format_timestamp` / `strict_rfc3339` (cross-checked
-  with `datetime` by the harness; not proved);
+* timestamps: `Civil.fmtTimestamp` / `Civil.parseTimestamp` (`Michelson/CivilDate.lean`) — `format_timestamp` and
+  `strict_rfc3339.rfc3339_to_timestamp` over proleptic-Gregorian civil-date arithmetic; the RFC 3339 law of
+  `Env.Lawful` is a THEOREM for them (`Proofs/C11Civil.lean`: `Civil.parse_fmt`; `Proofs/C11Clock.lean`:
+  `VC.Inst.clock_rt`); what stays sampled is that `datetime` / `strict_rfc3339` compute the same function;
 * `check_constraints`: strictly increasing under the Michelson order of the simple comparable types (C03 owns the
   order; the harness only sends multi-element collections of key types on which the library agrees);
 * lambda bodies: identity (the harness only sends bodies that `Micheline.match` re-renders unchanged). -/
@@ -148,86 +151,16 @@ def ofBin (k : DomKind) (b : Bytes) : Option DomVal :=
 
 /-! ### timestamps -/
 
-/-- days since 1970-01-01 → (year, month, day), proleptic Gregorian (Hinnant's `civil_from_days`) -/
-def civilFromDays (z : Int) : Int × Int × Int :=
-  let z := z + 719468
-  let era := z / 146097          -- `Int./` floors for a positive divisor
-  let doe := z - era * 146097
-  let yoe := (doe - doe / 1460 + doe / 36524 - doe / 146096) / 365
-  let y := yoe + era * 400
-  let doy := doe - (365 * yoe + yoe / 4 - yoe / 100)
-  let mp := (5 * doy + 2) / 153
-  let d := doy - (153 * mp + 2) / 5 + 1
-  let m := if mp < 10 then mp + 3 else mp - 9
-  (if m ≤ 2 then y + 1 else y, m, d)
-
-def daysFromCivil (y m d : Int) : Int :=
-  let y := if m ≤ 2 then y - 1 else y
-  let era := y / 400
-  let yoe := y - era * 400
-  let mp := if m > 2 then m - 3 else m + 9
-  let doy := (153 * mp + 2) / 5 + d - 1
-  let doe := yoe * 365 + yoe / 4 - yoe / 100 + doy
-  era * 146097 + doe - 719468
-
-def pad (w : Nat) (n : Int) : String :=
-  let s := toString n.toNat
-  String.ofList (List.replicate (w - s.length) '0') ++ s
-
-/-- `format_timestamp`: `%Y-%m-%dT%H:%M:%SZ`; glibc's `%Y` does not pad, the repaired code does -/
+/-- `format_timestamp` (`Civil.fmtTimestamp`, proved in `Proofs/C11Civil.lean`); the year is zero-padded or not as the
+translator read it from the source.  Outside 0001…9999 the Python function raises — that is `Impl.Value.raises`,
+`Civil.fmtTimestamp_eq_none_iff` says the two coincide; the text is then never used -/
 def fmtTs (t : Int) : String :=
-  let days := t / 86400
-  let secs := t % 86400
-  let (y, m, d) := civilFromDays days
-  let ys := if Generated.C11.yearPadded = some true then pad 4 y else toString y.toNat
-  ys ++ "-" ++ pad 2 m ++ "-" ++ pad 2 d ++ "T" ++ pad 2 (secs / 3600) ++ ":" ++ pad 2 (secs % 3600 / 60) ++ ":"
-    ++ pad 2 (secs % 60) ++ "Z"
+  match Civil.fmtTimestamp (Generated.C11.yearPadded == some true) t with
+  | some cs => String.ofList cs
+  | none => ""
 
-def isLeap (y : Int) : Bool := (y % 4 = 0 && y % 100 ≠ 0) || y % 400 = 0
-
-def monthLen (y m : Int) : Int :=
-  if m = 2 then (if isLeap y then 29 else 28)
-  else if m = 4 ∨ m = 6 ∨ m = 9 ∨ m = 11 then 30 else 31
-
-def num (cs : List Char) : Option Int := (digitsToNat cs 0).map Int.ofNat
-
-/-- `int(strict_rfc3339.rfc3339_to_timestamp(s))`:
-`^(\d{4})-(\d\d)-(\d\d)T(\d\d):(\d\d):(\d\d)(\.\d+)?(Z|[+-]\d\d:\d\d)$`, year 1–9999, valid day, no leap second -/
-def parseTs (s : String) : Option Int :=
-  match s.toList with
-  | y1 :: y2 :: y3 :: y4 :: '-' :: m1 :: m2 :: '-' :: d1 :: d2 :: 'T' :: h1 :: h2 :: ':' :: n1 :: n2 :: ':' :: s1 :: s2 :: rest => do
-    let y ← num [y1, y2, y3, y4]
-    let m ← num [m1, m2]
-    let d ← num [d1, d2]
-    let h ← num [h1, h2]
-    let n ← num [n1, n2]
-    let sec ← num [s1, s2]
-    -- optional fraction `(\.\d+)?`
-    let fr : Option (List Char × List Char) :=
-      match rest with
-      | '.' :: r =>
-        let ds := r.takeWhile Char.isDigit
-        if ds.isEmpty then none else some (ds, r.dropWhile Char.isDigit)
-      | r => some ([], r)
-    let (frac, rest) ← fr
-    let off : Option Int :=
-      match rest with
-      | ['Z'] => some 0
-      | [sg, a, b, ':', c, e] =>
-        if sg = '+' ∨ sg = '-' then do
-          let oh ← num [a, b]
-          let om ← num [c, e]
-          if oh ≤ 23 ∧ om ≤ 59 then some ((if sg = '-' then -1 else 1) * (oh * 3600 + om * 60)) else none
-        else none
-      | _ => none
-    let off ← off
-    if 1 ≤ y ∧ y ≤ 9999 ∧ 1 ≤ m ∧ m ≤ 12 ∧ 1 ≤ d ∧ d ≤ monthLen y m ∧ h ≤ 23 ∧ n ≤ 59 ∧ sec ≤ 59 then
-      let total := daysFromCivil y m d * 86400 + h * 3600 + n * 60 + sec - off
-      let fracNonZero := frac.any (· ≠ '0')
-      -- `int(float)` truncates toward zero
-      some (if fracNonZero && total < 0 then total + 1 else total)
-    else none
-  | _ => none
+/-- `int(strict_rfc3339.rfc3339_to_timestamp(s))` (`Civil.parseTimestamp`) -/
+def parseTs (s : String) : Option Int := Civil.parseTimestamp s.toList
 
 /-! ### `check_constraints` -/
 
@@ -269,6 +202,9 @@ def strictlySorted : List Val → Bool
   | [] => true
   | [_] => true
   | a :: b :: rest => cmpVal a b == some .lt && strictlySorted (b :: rest)
+
+/-- any environment with the concrete clock of this file in place of its RFC 3339 parameters -/
+def withCivilClock (env : Env) : Env := { env with fmtTs := fmtTs, parseTs := parseTs }
 
 def env : Env where
   valid := valid
